@@ -332,7 +332,7 @@ def store_scenario(st, run_id, rows, A, B=None, md_start=None):
             "end": datetime.datetime.fromtimestamp(md_start + 100, datetime.timezone.utc).replace(tzinfo=None)})
     lay = {}
     for n in names:
-        st.make(run_id, n, progress_bar=False)
+        st.make(run_id, n, progress_bar=False, processor="single_thread")
         md = st.get_metadata(run_id, n)
         lay[n] = [(int(c["start"]), int(c["end"]), int(c["n"])) for c in md["chunks"]]
     return lay
@@ -634,35 +634,59 @@ def worker(args):
     path = os.path.join(root, "w%d" % wid)
     os.makedirs(path, exist_ok=True)
     out = []
+    tm = {"setup": 0.0, "store": 0.0, "requests": 0.0, "n": 0}
     try:
+        t = lib.now()
         st = make_context(path)
+        tm["setup"] = lib.now() - t
         for sc in scen:
             rng = random.Random(seed * 7919 + sc["id"])
             run_id = "%d" % (sc["id"] + 1)
+            t = lib.now()
             try:
                 lay = store_scenario(st, run_id, sc["rows"], sc["A"], sc["B"], sc["md_start"])
             except Exception as e:  # noqa
                 out.append(("store", {"rows": sc["rows"], "A": sc["A"], "B": sc["B"]},
                             "store-failed %s" % err_code(e), None))
                 continue
+            tm["store"] += lib.now() - t
+            t = lib.now()
+            reqs = requests_for(rng, sc, lay, budget)
+            # the canonical witnesses of the known findings are requested verbatim on every run
+            for w in sc.get("witness_requests", ()):
+                c = dict(w, rows=sc["rows"], md_start=None, A=lay[w["targets"][0]])
+                if len(w["targets"]) == 2:
+                    c["B"] = lay[w["targets"][1]]
+                reqs.append(("witness", c))
             # the stored full result must be the prescribed rows
             base = {}
-            for group, case in requests_for(rng, sc, lay, budget):
+            for group, case in reqs:
                 tg = tuple(case["targets"])
                 if tg not in base:
                     # the full result of this target combination (no range, no selection)
                     base[tg] = run_request(st, run_id, {"targets": list(tg), "mode": "fully_contained",
                                                         "proc": "single_thread"})
                 out.append((group, case, run_request(st, run_id, case), base[tg]))
+            tm["requests"] += lib.now() - t
+            tm["n"] += len(reqs)
     except Exception:  # noqa
         out.append(("worker", {}, "worker-crash " + traceback.format_exc()[-1500:], None))
     finally:
         shutil.rmtree(path, ignore_errors=True)
+    out.append(("timing", tm, "", None))
     return out
 
 
 def run_pool(tasks):
-    nproc = max(1, min(14, (os.cpu_count() or 4) - 2, len(tasks)))
+    # The work is cut into the same 14 slices on every run (so the cases do not depend on the machine);
+    # only the number of processes executing them adapts: on a busy machine more processes than free
+    # cores lower the throughput (measured: 14 workers at load 90 are slower than 3).
+    ncpu = os.cpu_count() or 4
+    try:
+        free = int(ncpu - os.getloadavg()[0])
+    except OSError:
+        free = ncpu - 2
+    nproc = max(1, min(14, ncpu - 2, max(3, free), len(tasks)))
     ctxmp = multiprocessing.get_context("fork")
     with ctxmp.Pool(nproc) as pool:
         res = pool.map(worker, tasks, chunksize=1)
@@ -769,10 +793,15 @@ def unit_get_array(ctx):
         nscen, budget = 22, BUDGET_QUICK
     scen = make_scenarios(ctx.rng, nscen)
     # canonical witnesses are always part of the scope
+    def wreq(w):
+        return {k: w[k] for k in ("targets", "time_range", "mode", "proc")}
     scen.append({"rows": [tuple(r) for r in W_ZERO["rows"]], "A": [tuple(x) for x in W_ZERO["A"]],
-                 "B": [(0, 20, 4)], "scale": 1, "md_start": None, "id": nscen})
+                 "B": [(0, 20, 4)], "scale": 1, "md_start": None, "id": nscen,
+                 "witness_requests": [wreq(W_ZERO), dict(wreq(W_ZERO), proc="threaded_mailbox")]})
     scen.append({"rows": [tuple(r) for r in W_STRADDLE["rows"]], "A": [tuple(x) for x in W_STRADDLE["A"]],
-                 "B": [tuple(x) for x in W_STRADDLE["B"]], "scale": 1, "md_start": None, "id": nscen + 1})
+                 "B": [tuple(x) for x in W_STRADDLE["B"]], "scale": 1, "md_start": None, "id": nscen + 1,
+                 "witness_requests": [wreq(W_STRADDLE), dict(wreq(W_STRADDLE), mode="fully_contained"),
+                                      dict(wreq(W_STRADDLE), proc="threaded_mailbox")]})
     root = tmp_root()
     shutil.rmtree(root, ignore_errors=True)
     os.makedirs(root, exist_ok=True)
@@ -783,7 +812,15 @@ def unit_get_array(ctx):
         results = run_pool(tasks)
     finally:
         shutil.rmtree(root, ignore_errors=True)
-    ctx.notes.append("get_array: %d real requests in %.1f s (forked workers)" % (len(results), lib.now() - t_pool))
+    timing = [case for group, case, _, _ in results if group == "timing"]
+    results = [r for r in results if r[0] != "timing"]
+    ctx.notes.append(
+        "get_array: %d real requests in %.1f s wall (forked workers; slowest worker: setup %.1f s, storing %.1f s, "
+        "requests %.1f s; all workers together: storing %.1f s, requests %.1f s)"
+        % (len(results), lib.now() - t_pool,
+           max([t["setup"] for t in timing] or [0]), max([t["store"] for t in timing] or [0]),
+           max([t["requests"] for t in timing] or [0]),
+           sum(t["store"] for t in timing), sum(t["requests"] for t in timing)))
     cases, lines, skipped = [], [], {}
     for group, case, got, full in results:
         if group in ("store", "worker"):
@@ -992,7 +1029,7 @@ def saver_worker(args):
         st = make_context(path)
         rows = [(1, 3, 0, 0), (4, 6, 1, 1), (10, 10, 2, 0), (12, 15, 3, 1)]
         SCEN["1"] = {"aa": layout_chunks(rows, [(0, 10, 2), (10, 20, 2)])}
-        st.make("1", "aa", progress_bar=False)
+        st.make("1", "aa", progress_bar=False, processor="single_thread")
         names = ["dnever", "dexplicit", "dtarget", "dalways"]
         sw = {"dnever": 0, "dexplicit": 1, "dtarget": 2, "dalways": 3}
         combos = []
@@ -1221,7 +1258,7 @@ def replay(ctx, obj):
                 src = rows_b(rows) if tg.startswith("b") else rows
                 base = tg[0] + tg[0]       # aa / bb: write the recorded layout with the non-rechunking source
                 SCEN["1"][base] = layout_chunks(src, [tuple(x) for x in case[key]])
-                st.make("1", base, progress_bar=False)
+                st.make("1", base, progress_bar=False, processor="single_thread")
             c = dict(case, targets=[t[0] + t[0] for t in case["targets"]])
             got = run_request(st, "1", c)
         sys.stdout = stdout
